@@ -2,14 +2,17 @@
 (* Monitor for C32: message text round-trips for every content type.
 
    Event records (props/C32.py; strings are interned to integers, 0 = no value):
-     [k |-> "settext", T, P, D, S,       classes of the inputs (content-type family, charset parameter, what the
+     [k |-> "settext", T, P, N, D, S,    classes of the inputs (N: "lower" = the parameter name is spelled charset, "other" = Charset / CHARSET / ...)
+                                          classes of the inputs (content-type family, charset parameter, what the
                                           text starts with / declares about itself, its character repertoire)
                        arg,              id of the assigned string
                        exc,              "" or the class of the exception msg.text = ... raised
-                       rep,              oracle: the text is encodable (Python codecs, gb2312/gbk read as gb18030,
+                       rep,              oracle (the least demanding reading of a header that may carry the parameter in
+                                          several spellings: true if ANY charset parameter, or the absence of a lower-case one, fits):
+                                          the text is encodable (Python codecs, gb2312/gbk read as gb18030,
                                           surrogateescape) in the charset the Content-Type declares AFTER the call,
                                           or it declares none
-                       hascs,            the Content-Type after the call carries a charset parameter
+                       hascs,            the Content-Type after the call carries a (lower-case) charset parameter
                        rawbom,           which byte-order mark the raw body starts with ("none", "utf8", "utf16le", ...)
                        decl]             which in-body declaration the text carries ("none", "meta", "xml", "css")
      [k |-> "gettext", exc, res]         msg.text read back
@@ -18,7 +21,7 @@ EXTENDS Verif
 
 MonInit == [bad |-> <<>>, wit |-> {}, last |-> [k |-> "none"]]
 
-Cause(s) == IF s.P = "nontext" THEN "charset_names_non_text_codec"
+Cause(s) == IF s.P = "nontext" /\ s.N = "lower" THEN "charset_names_non_text_codec"
             ELSE IF s.S = "surrogate" THEN "surrogate_escaped_text"
             ELSE IF s.k = "settext" /\ s.rawbom # "none" THEN "body_starts_with_bom"
             ELSE IF s.k = "settext" /\ s.decl # "none" /\ ~s.hascs THEN "body_declares_charset"
@@ -45,7 +48,9 @@ MonStep(m, ev) ==
                                                   /\ ev.S \notin {"ascii"}, "charset_updated")
                               \cup W(ev.exc = "" /\ ev.decl # "none", "text_with_declaration")
                               \cup W(ev.exc = "" /\ ev.rawbom # "none", "body_with_bom")
-                              \cup W(ev.S = "surrogate", "surrogate_text")]
+                              \cup W(ev.S = "surrogate", "surrogate_text")
+                              \cup W(ev.exc = "" /\ ev.N # "lower" /\ ev.hascs, "fallback_beside_other_spelling")
+                              \cup W(ev.exc = "" /\ ev.N # "lower" /\ ~ev.hascs, "other_spelling_kept")]
     [] ev.k = "gettext" ->
          [m1 EXCEPT !.wit = @ \cup W(m.last.k = "settext" /\ m.last.exc = "" /\ ev.exc = "" /\ ev.res = m.last.arg, "roundtrip_ok")
                               \cup W(m.last.k = "settext" /\ m.last.exc = "" /\ ev.exc = "" /\ ev.res = m.last.arg
